@@ -1,4 +1,5 @@
 import IkeProofs.Theorems.C06
+import IkeProofs.Lemmas.PrimsReal
 
 /-!
 # C02 — tampered / truncated / spliced / cross-key / reflected SK messages are rejected
@@ -351,5 +352,12 @@ example : ∃ d, unprotectDecoded none (SkEx.bs.take 16 ++ [40] ++ SkEx.bs.drop 
   have := (C02_not_sk Prims.skToy (some SkEx.sa) false none (SkEx.bs.take 16 ++ [40] ++ SkEx.bs.drop 17)
     ⟨{ SkEx.dec.hdr with next := 40 }, [.nonce SkEx.enc]⟩ (by decide +kernel) rfl).1
   rw [this, if_neg (by simp)]
+
+/-- The hypothesis `P.Lawful` of the theorems above (acceptance ⇒ valid MAC, verify before decrypt) is not an assumption about the
+primitives the model actually runs: the executable SHA-256 / SHA-1 / MD5 / HMAC / AES of
+`IkeModel/Crypto` — the ones the correspondence suites compare byte for byte with Go's standard
+library — satisfy it (digest lengths; AES block length; `dec k (enc k b) = b` for every key and
+block, proved from FIPS-197's inverse structure in `Lemmas/PrimsReal.lean`). -/
+theorem C02_real_lawful : Prims.real.Lawful := Prims.real_lawful
 
 end Ike
